@@ -986,3 +986,81 @@ func (fx *fnExec) lookupDefine(name string) (*Define, bool) {
 	d, ok := fx.v.cs.Defines[name]
 	return d, ok
 }
+
+func (fx *fnExec) runBeforeCallHooks(name string, args []SV, where string) {
+	if fx.ctr == nil {
+		return
+	}
+	for _, h := range fx.ctr.Hooks {
+		if h.Event != "before-call" || !matchTarget(h.Target, name) {
+			continue
+		}
+		ne := fx.curEnv()
+		for i, a := range args {
+			ne.names[fmt.Sprintf("arg%d", i)] = a
+		}
+		fx.runHook(h, ne, where)
+	}
+}
+
+// evalClause evaluates a contract clause; [portable] clauses keep their integer meaning in bit-vector mode (wide.go).
+func (fx *fnExec) evalClause(c Clause, env *SpecEnv) Term {
+	if !c.Portable || fx.mode != "bv" {
+		return fx.evalBool(c.E, env)
+	}
+	ix := fx.v.newExec(fx.fn, fx.name+"$int-reading", fx.ctr, "int")
+	ix.st = newState()
+	ix.entry = ix.st
+	ix.curR = tTrue
+	ix.live = true
+	ix.cellNames = map[string][]ssa.Value{}
+	widths := map[string]int{}
+	var conv func(v SV) SV
+	conv = func(v SV) SV {
+		switch x := v.(type) {
+		case Sc:
+			if w := bvWidth(x.T.So); w > 0 {
+				widths[x.T.S] = w
+				return Sc{app(SInt, "bv2nat", x.T), x.Typ}
+			}
+			if x.T.So == SBool {
+				return x
+			}
+			panic(vcErr("portable clause %q mentions a value of sort %s", c.Src, x.T.So))
+		case Lit:
+			return x
+		case St:
+			n := St{Typ: x.Typ}
+			for _, f := range x.F {
+				n.F = append(n.F, conv(f))
+			}
+			return n
+		case Tu:
+			var n Tu
+			for _, f := range x.E {
+				n.E = append(n.E, conv(f))
+			}
+			return n
+		}
+		panic(vcErr("portable clause %q mentions an unsupported value %T", c.Src, v))
+	}
+	envI := &SpecEnv{fx: ix, cur: ix.st, old: ix.st, names: map[string]SV{}, bound: map[string]SV{}, callee: true}
+	for k, v := range env.names {
+		func() {
+			defer func() { recover() }() // names the clause does not use may be of unsupported shapes
+			envI.names[k] = conv(v)
+		}()
+	}
+	for k, v := range env.bound {
+		envI.bound[k] = conv(v)
+	}
+	ti := ix.evalBool(c.E, envI)
+	if len(ix.assumps) > 0 {
+		panic(vcErr("portable clause %q needs axioms in its integer reading; not translatable", c.Src))
+	}
+	wt, err := wideOfInt(ti, func(s string) int { return widths[s] })
+	if err != nil {
+		panic(vcErr("portable clause %q: %v", c.Src, err))
+	}
+	return wt
+}
